@@ -505,13 +505,16 @@ Qed.
 Definition eff (s : system) (ivs0 U : list ivar) (marks : list xmark) : nat -> option (list vref) :=
   fun p => if vtype_eqb (iv_type (geti U p)) VVoi then None else first_mark s ivs0 marks p.
 
-Definition tail_x (s : system) (es0 : list ieq) (voi : option vref) (ivs2 : list ivar) : outcome * bool :=
-  match loop s (loop_fuel es0) 1 false (mkCs ivs2 0 0) es0 with
+(* the loop and the second half of analyseModel, from the internal variables [ivsR]; [hx] = some variable is external *)
+Definition tail_y (s : system) (es0 : list ieq) (voi : option vref) (ivsR : list ivar) (hx : bool) : outcome * bool :=
+  match loop s (loop_fuel es0) 1 false (mkCs ivsR 0 0) es0 with
   | None => (OutOfFuel, false)
   | Some (st, es1) =>
       let r := finish s voi (cs_ivs st) (map (nla_ext_deps nla_dep_fix (cs_ivs st)) es1) (cs_vidx st) in
-      (Done r, valid_type (r_type r) && existsb iv_external ivs2)
+      (Done r, valid_type (r_type r) && hx)
   end.
+Definition tail_x (s : system) (es0 : list ieq) (voi : option vref) (ivs2 : list ivar) : outcome * bool :=
+  tail_y s es0 voi (map (state_rescue state_rescue_fix) ivs2) (existsb iv_external ivs2).
 
 (** Analyser::analyseModel with marks, as a function of the UNMARKED first stages *)
 Definition spec_x (s : system) (marks : list xmark) : outcome * bool :=
@@ -565,8 +568,8 @@ Proof.
     { apply in_map_iff in Hkey. destruct Hkey as (en & He1 & He2). apply in_map_iff. exists en. split; [|exact He2].
       rewrite He1. rewrite (ivar_of_cls_eq s U ivs0 _ Hcls). exact K3. }
     apply mem_nat_In in Hin. rewrite Hin. reflexivity. }
-  clear E4. subst ivs2. unfold tail_x.
-  destruct (loop s (loop_fuel es0) 1 false (mkCs (remark (eff s ivs0 U marks) 0 U) 0 0) es0) as [[st es1]|]; reflexivity.
+  clear E4. subst ivs2. unfold tail_x, tail_y.
+  destruct (loop s (loop_fuel es0) 1 false (mkCs (map (state_rescue state_rescue_fix) (remark (eff s ivs0 U marks) 0 U)) 0 0) es0) as [[st es1]|]; reflexivity.
 Qed.
 
 (** two markings with the same effect give the same analysis *)
@@ -637,7 +640,7 @@ Proof.
   destruct (fold_left (check_step true s (vs_voi vst)) pe (remark (first_mark s ivs0 marks) 0 U, [])) as [ivs2 xi2] eqn:Ec.
   pose proof (analyse_asts_plain s ivs0 es0 Hplain) as HUplain.
   pose proof (check_fold_msgs s (vs_voi vst) U pe _ _ _ _ HUplain Ec) as E4. cbn [app] in E4.
-  destruct (loop s (loop_fuel es0) 1 false (mkCs ivs2 0 0) es0) as [[st es1]|]; cbn [xr_messages]; subst; reflexivity.
+  destruct (loop s (loop_fuel es0) 1 false (mkCs (map (state_rescue (true && state_rescue_fix)) ivs2) 0 0) es0) as [[st es1]|]; cbn [xr_messages]; subst; reflexivity.
 Qed.
 
 (* the variables filed under a key are marks whose tracked variable is that key *)
@@ -676,4 +679,38 @@ Proof.
       * right. exists m1. split; [right; exact A|]. split; assumption.
     + destruct (IH _ _ _ _ H Hx) as [K|(m1 & A & B & C)]; [left; exact K|].
       right. exists m1. split; [right; exact A|]. split; assumption.
+Qed.
+
+(* ------------------------------------------------------------------ the rescue of uninitialised states keeps everything but the type *)
+
+Lemma state_rescue_keeps : forall b v,
+  iv_cls (state_rescue b v) = iv_cls v /\ iv_external (state_rescue b v) = iv_external v /\ iv_var (state_rescue b v) = iv_var v /\
+  iv_index (state_rescue b v) = iv_index v /\
+  (iv_type (state_rescue b v) = iv_type v \/ (iv_type v = VShouldBeState /\ iv_type (state_rescue b v) = VState)).
+Proof.
+  intros b v. unfold state_rescue. destruct (b && iv_external v && vtype_eqb (iv_type v) VShouldBeState) eqn:E.
+  - apply andb_true_iff in E. destruct E as (_ & E). apply vtype_eqb_eq in E. repeat split; try reflexivity. right. split; [exact E|reflexivity].
+  - repeat split; try reflexivity. left. reflexivity.
+Qed.
+
+Lemma state_rescue_evolves : forall s b ivs, evolves s ivs (map (state_rescue b) ivs).
+Proof.
+  intros s b ivs. apply map_evolves. intro v. unfold state_rescue.
+  destruct (b && iv_external v && vtype_eqb (iv_type v) VShouldBeState) eqn:E; [|apply step_ok_refl].
+  apply andb_true_iff in E. destruct E as (_ & E). apply vtype_eqb_eq in E. apply set_type_step. rewrite E.
+  unfold tok. repeat split; intros; try discriminate; auto.
+Qed.
+
+Lemma state_rescue_geti : forall b ivs p, geti (map (state_rescue b) ivs) p = state_rescue b (geti ivs p) \/ (length ivs <= p).
+Proof.
+  intros b ivs p. destruct (Nat.lt_ge_cases p (length ivs)) as [L|L]; [left; apply geti_map; exact L|right; exact L].
+Qed.
+
+Lemma state_rescue_off : forall ivs, map (state_rescue false) ivs = ivs.
+Proof. intro ivs. induction ivs as [|v t IH]; cbn; [reflexivity|]. rewrite IH. reflexivity. Qed.
+
+Lemma state_rescue_noext : forall b ivs, Forall (fun v => iv_external v = false) ivs -> map (state_rescue b) ivs = ivs.
+Proof.
+  intros b ivs H. induction H as [|v t Hv Ht IH]; cbn; [reflexivity|]. rewrite IH. f_equal.
+  unfold state_rescue. rewrite Hv, andb_false_r. reflexivity.
 Qed.
